@@ -149,9 +149,12 @@ def flag_rows(repo):
     for k in FLAGS:
         I = Interp(repo)
         src = Obj(repo.cls('source.source', 'Source'), {
-            '_valid': Arr((W,), num(k), unit=num(1)),
+            '_valid': None,
             '_flux': symarr('Fs', (W,), unit=num(1)),
             '_error': symarr('Es', (W,), unit=num(1))})
+        # the flags are assigned through the real setter, so anything the class derives from them at that point exists
+        I.call(repo.func('source.source', 'Source.valid@setter'), [Arr((W,), num(k), unit=num(1))], selfv=src)
+        I.assumed[:] = []
         out = I.call(glf, [], selfv=src)
         I2 = Interp(repo)
         n = I2.call(nd, [], selfv=src)
